@@ -251,12 +251,12 @@ struct Progs {
     wrap: String,
 }
 
-fn mk_state<T>(progs: &Progs) -> St<T>
+fn mk_state<T>(progs: &Progs, force_map: bool) -> St<T>
 where
     T: M + VmType + Send + Sync + for<'vm> Pushable<'vm> + for<'vm, 'value> Getable<'vm, 'value>,
     <T as VmType>::Type: Sized,
 {
-    let vm = new_vm(T::ty().needs_map());
+    let vm = new_vm(force_map || T::ty().needs_map());
     let compile = |name: &str, src: &str| -> Option<OwnedFunction<fn(T) -> T>> {
         match catch_unwind(AssertUnwindSafe(|| vm.run_expr::<OwnedFunction<fn(T) -> T>>(name, src))) {
             Ok(Ok((f, _))) => Some(f),
@@ -328,7 +328,7 @@ fn run_route<T>(
         if !DIRTY_HARD.with(|d| d.get()) && vm_healthy(&st.vm) {
             DIRTY.with(|d| d.set(false));
         } else {
-            std::mem::forget(std::mem::replace(st, mk_state::<T>(progs)));
+            std::mem::forget(std::mem::replace(st, mk_state::<T>(progs, false)));
         }
     }
     cfg.emit(&format!("B {} {}", k, name));
@@ -358,7 +358,7 @@ where
         rb: ty.program(&ty.gty(true), &ty.rebuild_body()),
         wrap: ty.program(&format!("Option {}", ty.gty(true)), "mk_some x"),
     };
-    let mut st = mk_state::<T>(&progs);
+    let mut st = mk_state::<T>(&progs, false);
 
     if cfg.from_case != usize::MAX {
         for (k, val) in cases.iter().enumerate() {
@@ -417,37 +417,52 @@ where
     }
 
     // ---- route 5: requests at every type of the family ---------------------------------------
-    if DIRTY.with(|d| d.get()) {
-        std::mem::forget(std::mem::replace(&mut st, mk_state::<T>(&progs)));
-    }
-    let vm = st.vm.clone();
+    // (a VM with std.map loaded: the requested types include maps)
+    std::mem::forget(std::mem::replace(&mut st, mk_state::<T>(&progs, true)));
     let picks: Vec<Val> = {
         let b = ty.boundary(if cfg.tier_thorough { 120 } else { 40 });
-        let mut p = vec![b[0].clone()];
-        if b.len() > 2 {
-            p.push(b[b.len() / 2].clone());
-        }
-        if b.len() > 1 {
-            p.push(b[b.len() - 1].clone());
+        let n = if matches!(ty, Ty::Prim(_)) { 12 } else { 3 };
+        let mut p: Vec<Val> = Vec::new();
+        for i in 0..n.min(b.len()) {
+            let v = b[i * (b.len() - 1) / (n.min(b.len()) - 1).max(1)].clone();
+            if !p.contains(&v) {
+                p.push(v);
+            }
         }
         p
     };
-    let mut gnames = Vec::new();
-    for (j, val) in picks.iter().enumerate() {
-        let name = format!("c11g{}x{}", cfg.idx, j);
+    // every pick becomes a global (an extern module holding the Rust value); a definition that
+    // fails or leaves the VM unusable is reported as its own observable and the VM is rebuilt
+    let mut gnames: Vec<(String, String, bool)> = Vec::new();
+    let define = |vm: &RootedThread, name: &str, val: &Val| -> bool {
         let x: T = T::from_val(val);
+        let name2 = name.to_string();
         let ok = guard(|| {
-            gluon::import::add_extern_module(&vm, &name, move |thread| ExternModule::new(thread, x.clone()));
-            match vm.run_expr::<OpaqueValue<RootedThread, Hole>>("c11imp", &format!("import! {}", name)) {
+            gluon::import::add_extern_module(vm, &name2, move |thread| ExternModule::new(thread, x.clone()));
+            match vm.run_expr::<OpaqueValue<RootedThread, Hole>>("c11imp", &format!("import! {}", name2)) {
                 Ok(_) => "OK".to_string(),
                 Err(e) => err_class(&e),
             }
         });
-        if ok != "OK" {
-            eprintln!("global {} could not be defined: {}", name, LAST_PANIC.with(|p| p.borrow().clone()));
+        ok == "OK" && vm_healthy(vm)
+    };
+    for (j, val) in picks.iter().enumerate() {
+        let name = format!("c11g{}x{}", cfg.idx, j);
+        let ok = define(&st.vm, &name, val);
+        if !ok {
+            let why = LAST_PANIC.with(|p| p.borrow().clone());
+            eprintln!("global {} could not be defined: {}", name, why);
+            std::mem::forget(std::mem::replace(&mut st, mk_state::<T>(&progs, true)));
+            for g in gnames.iter() {
+                if g.2 {
+                    let v = picks.iter().find(|p| p.text() == g.1).unwrap();
+                    define(&st.vm, &g.0, v);
+                }
+            }
         }
-        gnames.push((name, val.text(), ok == "OK"));
+        gnames.push((name, val.text(), ok));
     }
+    let vm = st.vm.clone();
     let fname = format!("c11f{}", cfg.idx);
     let f_ok = guard(|| match vm.load_script(&fname, &progs.id) {
         Ok(()) => "OK".to_string(),
@@ -494,7 +509,12 @@ impl<'a> Mismatch<'a> {
             let vm = self.vm;
             parts.push(guard(|| match vm.get_global::<W>(name) {
                 Ok(y) => format!("1:{}", render(&y)),
-                Err(gluon::vm::Error::WrongType(..)) => "0".to_string(),
+                Err(gluon::vm::Error::WrongType(a, b)) => {
+                    if std::env::var("C11_DEBUG_SIG").is_ok() {
+                        eprintln!("WrongType for {}: expected `{}` actual `{}`", name, a, b);
+                    }
+                    "0".to_string()
+                }
                 Err(e) => vm_err_class(&e),
             }));
         }
@@ -909,8 +929,17 @@ fn main() {
                 distinct.insert(fnv(format!("{}\t{}", tcode, val).as_bytes()));
             }
         }
+        for (pval, ok) in &res.picks {
+            writeln!(model_in, "D\t{}\t{}", tcode, pval).unwrap();
+            writeln!(impl_out, "define={}", if *ok { "OK" } else { "FAIL" }).unwrap();
+            writeln!(cases_txt, "D\t{}\t{}\t-\t{}\t", idx, name, pval).unwrap();
+            evaluations += 1;
+        }
         for (w, (wtcode, fs, xs)) in &res.pairs {
             for (j, x) in xs.iter().enumerate() {
+                if x == "NOGLOBAL" {
+                    continue;
+                }
                 let (pval, _) = match res.picks.get(j) {
                     Some(p) => p,
                     None => continue,
@@ -983,7 +1012,7 @@ fn probe() {
             rb: ty.program(&ty.gty(true), &ty.rebuild_body()),
             wrap: ty.program(&format!("Option {}", ty.gty(true)), "mk_some x"),
         };
-        let st = mk_state::<Option<Option<i64>>>(&progs);
+        let st = mk_state::<Option<Option<i64>>>(&progs, false);
         std::mem::forget(st);
         let which = std::env::var("PROBE_PROGS").unwrap();
         if which.contains("i") { vm.run_expr::<OwnedFunction<fn(Option<Option<i64>>) -> Option<Option<i64>>>>("c11id", &progs.id).unwrap(); }
@@ -991,9 +1020,15 @@ fn probe() {
         if which.contains("w") { vm.run_expr::<OwnedFunction<fn(Option<Option<i64>>) -> Option<Option<Option<i64>>>>>("c11wrap", &progs.wrap).unwrap(); }
         if which.contains("l") { vm.load_script("c11f", &progs.id).unwrap(); }
     }
-    let x: Option<Option<i64>> = Some(None);
+    let x: Option<Option<i64>> = if std::env::var("PROBE_NONE").is_ok() { None } else { Some(None) };
     gluon::import::add_extern_module(&vm, "c11probe", move |thread| ExternModule::new(thread, x.clone()));
     vm.run_expr::<OpaqueValue<RootedThread, Hole>>("c11imp", "import! c11probe").unwrap();
+    if std::env::var("PROBE_LOAD_AFTER").is_ok() {
+        vm.load_script("c11after", "1").unwrap();
+    }
+    if std::env::var("PROBE_LOAD_ID_AFTER").is_ok() {
+        vm.load_script("c11f17", &ty.program(&ty.gty(true), "x")).unwrap();
+    }
     if std::env::var("PROBE_PRE").is_ok() {
         println!("pre i64: {:?}", vm.get_global::<i64>("c11probe").is_ok());
         println!("pre Option<i64>: {:?}", vm.get_global::<Option<i64>>("c11probe").is_ok());
